@@ -243,6 +243,32 @@ def gen_columnar(items):
                 f'def linearDevStep (s : Nat × Nat) (deviation : Nat) : Nat × Nat :=\n'
                 f'  let mn := s.1; let mx := s.2; {term}')
     items.append(linear_dev_step)
+    def range_u32_conversion():
+        # BitUnpacker::get_ids_for_value_range, u32 fast path: the guard on the range start and the
+        # conversion of the u64 query range to a u32 range — the source expressions, with
+        # `*range.start()` / `*range.end()` renamed `lo` / `hi`, translated by rs2lean
+        import importlib.util as ilu
+        spec = ilu.spec_from_file_location('rs2lean_c08', os.path.join(os.path.dirname(os.path.abspath(__file__)), 'rs2lean.py'))
+        r2l = ilu.module_from_spec(spec); spec.loader.exec_module(r2l)
+        body = fn_body(bu, 'get_ids_for_value_range')
+        g = re.search(r'if\s+\*range\.start\(\)\s*>\s*([^{]+?)\s*\{\s*positions\.clear\(\)\s*;\s*return\s*;\s*\}', body)
+        c = re.search(r'let\s+range_u32\s*=\s*(.+?)\s*\.\.=\s*(.+?)\s*;', body, flags=re.S)
+        w = re.search(r'if\s+self\.bit_width\(\)\s*>\s*(\d+)\s*\{\s*self\.get_ids_for_value_range_slow', body)
+        if not (g and c and w):
+            raise Fail(f'{bu}: get_ids_for_value_range outside the modelled shape')
+        def ren(e):
+            return e.replace('*range.start()', 'lo').replace('*range.end()', 'hi')
+        synth = (f'fn range_lookup_start_too_big(lo: u64, hi: u64) -> bool {{ lo > {ren(g.group(1))} }}\n'
+                 f'fn range_lookup_start_u32(lo: u64, hi: u64) -> u32 {{ {ren(c.group(1))} }}\n'
+                 f'fn range_lookup_end_u32(lo: u64, hi: u64) -> u32 {{ {ren(c.group(2))} }}\n')
+        out = [D('RANGE_LOOKUP_FAST_MAX_BITS', int(w.group(1)), f'{bu}::get_ids_for_value_range: widths above use the slow path')]
+        try:
+            for fn in ('range_lookup_start_too_big', 'range_lookup_start_u32', 'range_lookup_end_u32'):
+                out.append(f'-- translated from {bu}::BitUnpacker::get_ids_for_value_range ({fn})\n' + r2l.translate_fn(synth, fn, {}))
+        except r2l.Unsupported as e:
+            raise Fail(f'{bu}::get_ids_for_value_range: conversion outside the translatable subset: {e}')
+        return '\n'.join(out)
+    items.append(range_u32_conversion)
     def serialized_meta():
         return D('SERIALIZED_BLOCK_META_NUM_BYTES', const(oi, 'SERIALIZED_BLOCK_META_NUM_BYTES'), oi)
     items.append(serialized_meta)
